@@ -373,7 +373,10 @@ def merge_counts(dst, src):
     if isinstance(v, dict):
       merge_counts(dst.setdefault(k, {}), v)
     elif isinstance(v, (int, float)):
-      dst[k] = dst.get(k, 0) + v
+      if k.endswith('_max'):
+        dst[k] = max(dst.get(k, 0), v)
+      else:
+        dst[k] = dst.get(k, 0) + v
 
 
 def build_evidence(prop, tier, seed, legs, leg_summaries, results, wall,
